@@ -20,7 +20,7 @@ def CellRel.le (β β' : CellRel) : Prop := ∀ a b, β a b → β' a b
 theorem CellRel.le_refl (β : CellRel) : β.le β := fun _ _ h => h
 theorem CellRel.le_trans {a b c : CellRel} (h1 : a.le b) (h2 : b.le c) : a.le c := fun _ _ h => h2 _ _ (h1 _ _ h)
 
-abbrev QRel := List String → FnBody → FnBody → Prop
+abbrev QRel := List DName → FnBody → FnBody → Prop
 
 /-- context of a development: watched global names (never declared as a local / parameter, never
 assigned) and facts about their values that hold throughout the run -/
@@ -33,8 +33,20 @@ structure Cx where
 def Cx.none : Cx := {}
 
 /-- the two local environments agree (through `β`) on every name outside `D` -/
-def EnvRel (β : CellRel) (D : List String) (l l' : List (String × Nat)) : Prop :=
-  ∀ n, n ∉ D → OptRel β (lookupAssoc n l) (lookupAssoc n l')
+def EnvRel (β : CellRel) (D : List DName) (l l' : List (String × Nat)) : Prop :=
+  ∀ n, DName.ref n ∉ D → OptRel β (lookupAssoc n l) (lookupAssoc n l')
+
+/-- `D'` extends `D` without watching more names -/
+def DExt (D D' : List DName) : Prop := (∀ x ∈ D, x ∈ D') ∧ (∀ n, DName.wat n ∈ D' → DName.wat n ∈ D)
+
+theorem DExt.refl (D : List DName) : DExt D D := ⟨fun _ h => h, fun _ h => h⟩
+theorem DExt.trans {A B C : List DName} (h1 : DExt A B) (h2 : DExt B C) : DExt A C :=
+  ⟨fun x h => h2.1 x (h1.1 x h), fun n h => h1.2 n (h2.2 n h)⟩
+theorem DExt.refs (ns : List String) (D : List DName) : DExt D (ns.map DName.ref ++ D) :=
+  ⟨fun _ h => List.mem_append_right _ h, fun n h => by
+    rcases List.mem_append.mp h with h | h
+    · obtain ⟨m, _, hm⟩ := List.mem_map.mp h; cases hm
+    · exact h⟩
 
 theorem OptRel.imp {α β : Type} {R S : α → β → Prop} (h : ∀ a b, R a b → S a b) :
     ∀ {x y}, OptRel R x y → OptRel S x y
@@ -47,7 +59,7 @@ theorem EnvRel.mono {β β' : CellRel} {D l l'} (h : EnvRel β D l l') (hβ : β
   fun n hn => OptRel.imp hβ (h n hn)
 
 theorem EnvRel.weaken {β : CellRel} {D D' l l'} (h : EnvRel β D l l') (hD : ∀ x ∈ D, x ∈ D') : EnvRel β D' l l' :=
-  fun n hn => h n (fun hx => hn (hD n hx))
+  fun n hn => h n (fun hx => hn (hD _ hx))
 
 theorem EnvRel.cons {β : CellRel} {D l l'} (h : EnvRel β D l l') (n : String) {c c' : Nat} (hc : β c c') :
     EnvRel β D ((n, c) :: l) ((n, c') :: l') := by
@@ -58,7 +70,7 @@ theorem EnvRel.cons {β : CellRel} {D l l'} (h : EnvRel β D l l') (n : String) 
   · exact h m hm
 
 /-- an extra binding on the left for a dead name -/
-theorem EnvRel.consLeft {β : CellRel} {D l l'} (h : EnvRel β D l l') (n : String) (c : Nat) (hn : n ∈ D) :
+theorem EnvRel.consLeft {β : CellRel} {D l l'} (h : EnvRel β D l l') (n : String) (c : Nat) (hn : DName.ref n ∈ D) :
     EnvRel β D ((n, c) :: l) l' := by
   intro m hm
   simp only [lookupAssoc]
@@ -66,7 +78,7 @@ theorem EnvRel.consLeft {β : CellRel} {D l l'} (h : EnvRel β D l l') (n : Stri
   · next heq => exact absurd (by rw [← (beq_iff_eq.mp heq)]; exact hn) hm
   · exact h m hm
 
-theorem EnvRel.consRight {β : CellRel} {D l l'} (h : EnvRel β D l l') (n : String) (c : Nat) (hn : n ∈ D) :
+theorem EnvRel.consRight {β : CellRel} {D l l'} (h : EnvRel β D l l') (n : String) (c : Nat) (hn : DName.ref n ∈ D) :
     EnvRel β D l ((n, c) :: l') := by
   intro m hm
   simp only [lookupAssoc]
@@ -74,22 +86,63 @@ theorem EnvRel.consRight {β : CellRel} {D l l'} (h : EnvRel β D l l') (n : Str
   · next heq => exact absurd (by rw [← (beq_iff_eq.mp heq)]; exact hn) hm
   · exact h m hm
 
-structure CRel (Q : QRel) (β : CellRel) (c c' : Closure N) : Prop where
-  varargs : c.varargs = c'.varargs
-  body : ∃ D, Q D c.body c'.body ∧ EnvRel β D c.env c'.env
+/-- local environments: related outside the dead set; every watched global is recorded in `D`; no
+watched name is bound (on the left; hence, being related, on the right) -/
+structure LocOK (cx : Cx) (β : CellRel) (D : List DName) (l l' : List (String × Nat)) : Prop where
+  rel : EnvRel β D l l'
+  dw : ∀ n ∈ cx.W, DName.wat n ∈ D
+  nb : ∀ n, DName.wat n ∈ D → lookupAssoc n l = none ∧ lookupAssoc n l' = none
 
-theorem CRel.mono {Q : QRel} {β β' : CellRel} {c c' : Closure N} (h : CRel Q β c c') (hβ : β.le β') :
-    CRel Q β' c c' :=
+theorem LocOK.mono {cx : Cx} {β β' : CellRel} {D l l'} (h : LocOK cx β D l l') (hβ : β.le β') : LocOK cx β' D l l' :=
+  ⟨h.rel.mono hβ, h.dw, h.nb⟩
+
+theorem LocOK.weaken {cx : Cx} {β : CellRel} {D D' l l'} (h : LocOK cx β D l l') (hD : DExt D D') :
+    LocOK cx β D' l l' :=
+  ⟨h.rel.weaken hD.1, fun n hn => hD.1 _ (h.dw n hn), fun n hn => h.nb n (hD.2 n hn)⟩
+
+theorem lookup_cons_ne {α : Type} {n m : String} {c : α} {l : List (String × α)} (h : m ≠ n) :
+    lookupAssoc m ((n, c) :: l) = lookupAssoc m l := by
+  simp only [lookupAssoc]
+  split
+  · next heq => exact absurd (beq_iff_eq.mp heq).symm h
+  · rfl
+
+theorem LocOK.cons {cx : Cx} {β : CellRel} {D l l'} (h : LocOK cx β D l l') (n : String) (hn : DName.wat n ∉ D)
+    {c c' : Nat} (hc : β c c') : LocOK cx β D ((n, c) :: l) ((n, c') :: l') :=
+  ⟨h.rel.cons n hc, h.dw, fun m hm => by
+    have hne : m ≠ n := fun e => hn (e ▸ hm)
+    rw [lookup_cons_ne hne, lookup_cons_ne hne]; exact h.nb m hm⟩
+
+theorem LocOK.consLeft {cx : Cx} {β : CellRel} {D l l'} (h : LocOK cx β D l l') (n : String) (c : Nat)
+    (hr : DName.ref n ∈ D) (hn : DName.wat n ∉ D) : LocOK cx β D ((n, c) :: l) l' :=
+  ⟨h.rel.consLeft n c hr, h.dw, fun m hm => by
+    have hne : m ≠ n := fun e => hn (e ▸ hm)
+    rw [lookup_cons_ne hne]; exact h.nb m hm⟩
+
+theorem LocOK.consRight {cx : Cx} {β : CellRel} {D l l'} (h : LocOK cx β D l l') (n : String) (c : Nat)
+    (hr : DName.ref n ∈ D) (hn : DName.wat n ∉ D) : LocOK cx β D l ((n, c) :: l') :=
+  ⟨h.rel.consRight n c hr, h.dw, fun m hm => by
+    have hne : m ≠ n := fun e => hn (e ▸ hm)
+    rw [lookup_cons_ne hne]; exact h.nb m hm⟩
+
+structure CRel (Q : QRel) (cx : Cx) (β : CellRel) (c c' : Closure N) : Prop where
+  varargs : c.varargs = c'.varargs
+  body : ∃ D, Q D c.body c'.body ∧ LocOK cx β D c.env c'.env
+
+theorem CRel.mono {Q : QRel} {cx : Cx} {β β' : CellRel} {c c' : Closure N} (h : CRel Q cx β c c') (hβ : β.le β') :
+    CRel Q cx β' c c' :=
   ⟨h.varargs, let ⟨D, hq, he⟩ := h.body; ⟨D, hq, he.mono hβ⟩⟩
 
 structure SRel (Q : QRel) (cx : Cx) (β : CellRel) (σ σ' : State N) : Prop where
   globals : σ'.globals = σ.globals
   tables : σ'.tables = σ.tables
   trace : σ'.trace = σ.trace
+  /-- the facts about watched globals hold -/
+  ginv : ∀ p ∈ cx.G N, σ.getGlobal p.1 = p.2
   inj : ∀ {a b a' b'}, β a b → β a' b' → (a = a' ↔ b = b')
   bound : ∀ {a b}, β a b → a < σ.cells.length ∧ b < σ'.cells.length
   cell : ∀ {a b}, β a b → σ'.cells[b]? = σ.cells[a]?
-  closures : Forall2 (CRel Q β) σ.closures σ'.closures
+  closures : Forall2 (CRel Q cx β) σ.closures σ'.closures
 
 /-- relation on result payloads, indexed by the current injection -/
 abbrev ARel (α : Type) := CellRel → α → α → Prop
